@@ -153,6 +153,17 @@ func runCrashProperty(t *rapid.T, pc crashProgCfg) {
 		}
 		acts["sweep2"] = acts["sweep"]
 	}
+	// a SETATTR of one attribute the reference does not model (atime, mtime, mode): a stable acknowledgement all
+	// the same - whatever was acknowledged before it must be on the device afterwards
+	acts["setattr_one"] = wrap(func(t *rapid.T) {
+		objs := g.unskipped(x.M.LiveKind(nt.NF3REG))
+		if len(objs) == 0 {
+			return
+		}
+		if err := x.SetattrOne(LiveRef(pick(t, objs, "obj")), rapid.IntRange(0, 3).Draw(t, "which")); err != nil {
+			stepErr = err
+		}
+	})
 	nrestart, nnoflush := 0, 0
 	acts["restart"] = func(t *rapid.T) {
 		if nrestart+nnoflush >= 3 {
